@@ -75,6 +75,18 @@ def cases(ctx):
                 n_fail = failures if who == "one-node" else 2 * failures
                 yield {"version": version, "fail19": list(range(n_fail)), "fault_class": FAULT_CLASSES[failures % len(FAULT_CLASSES)],
                        "steps": PRE + [["rx", line + "\n"] for line in lines]}
+    # the session ends (normally / through a transport error raised by listen) and the application reconnects with the same
+    # Gateway object while an episode is open: the request that was WRITTEN stays sent
+    for version in VERSIONS[2:]:
+        for how in (["reenter"], ["reenter", "transport-error"]):
+            for k in (1, 2, 5):
+                if not ctx.mine():
+                    continue
+                lines = [SYMBOLS[0]] * k
+                steps = PRE + [["rx", line + "\n"] for line in lines] + [how] + \
+                    [["rx", SYMBOLS[0] + "\n"], ["rx", f"{U1};255;3;0;0;9\n"], how, ["rx", SYMBOLS[0] + "\n"],
+                     ["rx", f"{U1};255;0;0;17;2.0\n"], ["rx", f"{U1};7;1;0;0;1\n"], how, ["rx", f"{U1};7;1;0;0;1\n"]]
+                yield {"version": version, "steps": steps}
     # long episodes: one node keeps sending rejected messages (several kinds) and never presents itself - ONE request, however
     # many messages follow (counters that start a retry after the n-th message: n from the usual round numbers and from
     # the numeric constants of the code under test, vf.codedict)
